@@ -48,6 +48,11 @@ MACROS = {
                   ' branch_value_table=nb.branch_value_table))'),
     'ib_branch_renamed': (['ob', 'nb'], 'implies(isinstance(ob, SyntheticBranch), renamed_table(ob, nb))'),
     'ib_branch_table': (['ob', 'nb'], 'implies(isinstance(ob, SyntheticBranch), table_ok(nb))'),
+    # nb is ob up to its targets and back edges (and, for a branching block, the value table following the targets)
+    'ue_plain': (['ob', 'nb'], 'implies(not isinstance(ob, SyntheticBranch),'
+                               ' nb == replace(ob, _jump_targets=nb._jump_targets, backedges=nb.backedges))'),
+    'ue_branch': (['ob', 'nb'], 'implies(isinstance(ob, SyntheticBranch), nb == replace(ob, _jump_targets=nb._jump_targets,'
+                                ' backedges=nb.backedges, branch_value_table=nb.branch_value_table))'),
     'rr_pos': (['oj', 'nj', 'new', 'S'],
                'implies(at_most_one_in(oj, S), len(nj) == len(oj)'
                ' and all(nj[i] == (new if oj[i] in S else oj[i]) for i in range(len(oj))))'),
@@ -242,7 +247,7 @@ def runtime_namespace(extra=None):
 
     ns.update(fwd_rank=fwd_rank, hier_names=hier_names)
     ns.update(dominates=dominates, dgfp=dgfp, tmap=LazyMap, identical=lambda a, b: a == b, same_value=lambda a, b: a == b)
-    ns.update(block_name=block_name, region_name=region_name, var_name=var_name, gen_index=gen_index, is_generated=is_generated)
+    ns.update(block_name=block_name, region_name=region_name, gen_region_name=region_name, var_name=var_name, gen_index=gen_index, is_generated=is_generated)
     ns.update(reach1=reach1, implies=implies, distinct=distinct, is_sorted=is_sorted, updated=updated, removed=removed,
               without=without, card=card, get=get, same_elements=same_elements, replace=dataclasses.replace)
     from numba_scfg.core.datastructures import basic_block as bb
